@@ -405,6 +405,7 @@ OpClauses(e, pre, post) ==
     [] e.op = "pcs"    -> PcsC(e)
     [] e.op = "helper" -> HelperC(e)
     [] e.op = "aset"   -> AsetC(e)
+    [] e.op = "scrub"  -> ScrubC(e)
     [] OTHER -> TextOpClauses(e, pre, post)
 
 Clauses(e, pre, post) == Common(e, pre, post) \o OpClauses(e, pre, post)
